@@ -3,6 +3,7 @@ import FqModel.C01Readers
 import FqModel.C01Spec
 import Proofs.C01Bits
 import Proofs.C01Read64
+import Proofs.C01Write64
 import Proofs.C01Ahead
 import Proofs.C01ReadAt
 /-!
@@ -37,6 +38,39 @@ example : read64 [0x12, 0x34, 0x56] 5 13 = ok 0x8d1 ∧ 5 + 13 ≤ 8 * [0x12, 0x
 
 /-- outside the hypothesis the Go code panics (index out of range), and the model says so -/
 example : read64 [0xaa, 0x55, 0xaa] 8 24 = fault "slice bounds out of range" := by decide
+
+/-! ### Write64 -/
+
+/-- Write64 replaces exactly bits [off, off+n) of the buffer by the n-bit big-endian representation of v
+    (every buffer, bit offset, length 0..64); all other bits and the length are unchanged.
+    Hypothesis `v < 2^n`: Write64 does not mask v — see `write64_unmasked_witness`; every caller inside
+    pkg/bitio (copyBufBits, readFull) passes a value that Read64 returned for the same n, or 0. -/
+theorem write64_spec (v n : Nat) (buf : List UInt8) (off : Nat) (h : off + n ≤ 8 * buf.length) (hn : n ≤ 64)
+    (hv : v < 2 ^ n) :
+    ∃ buf', write64 v n buf off = ok buf' ∧ buf'.length = buf.length ∧
+      bytesToBits buf' = (bytesToBits buf).take off ++ toBitsBE n v ++ (bytesToBits buf).drop (off + n) :=
+  write64_spec' v n buf off h hn hv
+
+/-- what was written is read back -/
+theorem read64_write64 (v n : Nat) (buf : List UInt8) (off : Nat) (h : off + n ≤ 8 * buf.length) (hn : n ≤ 64)
+    (hv : v < 2 ^ n) :
+    ∃ buf', write64 v n buf off = ok buf' ∧ read64 buf' off n = ok v := by
+  obtain ⟨buf', h1, h2, h3⟩ := write64_spec v n buf off h hn hv
+  refine ⟨buf', h1, ?_⟩
+  rw [read64_spec buf' off n (by omega) hn, h3]
+  have hl : ((bytesToBits buf).take off).length = off := by
+    rw [List.length_take, bytesToBits_length]; omega
+  have : slice ((bytesToBits buf).take off ++ toBitsBE n v ++ (bytesToBits buf).drop (off + n)) off n = toBitsBE n v := by
+    simp only [slice]
+    rw [List.append_assoc, List.drop_left' hl, List.take_left' (toBitsBE_length n v)]
+  rw [this, ofBitsBE_toBitsBE, Nat.mod_eq_of_lt hv]
+
+/-- the hypothesis `v < 2^n` of `write64_spec` is needed: at an unaligned position Write64 ORs the excess
+    bits of v into the bits before firstBit (Write64(0xffff, 4, buf, 4) turns the first nibble of 0x00 into f) -/
+theorem write64_unmasked_witness : write64 0xffff 4 [0x00] 4 = ok [0xff] := by decide
+
+/-- non-vacuity: an unaligned 13-bit write into the middle of three bytes -/
+example : write64 0x1abc 13 [0xff, 0x00, 0xff] 5 = ok [0xfe, 0xaf, 0x3f] ∧ 0x1abc < 2 ^ 13 ∧ 5 + 13 ≤ 8 * 3 := by decide
 
 /-! ### ReadBitsAt / ReadBits of byte buffers, sections, multi readers, zero readers, limit readers -/
 
